@@ -274,6 +274,8 @@ pub struct Gen<'k> {
     hazard_var: Option<String>,
     hazard_done: bool,
     randoms_in_stmt: u32,
+    /// this run's pool of variable names
+    var_pool: [&'static str; 8],
     pub dut: Option<DutSpec>,
 }
 
@@ -283,11 +285,14 @@ const BIDIR_NAMES: [&str; 3] = ["IO", "BD", "BUS"];
 const VIRT_NAMES: [&str; 6] = ["V", "W", "VV", "U", "V2", "W2"];
 // second naming scheme: names that are prefixes of one another (binding is by exact name)
 const IN_NAMES_P: [&str; 8] = ["D", "D1", "D10", "DA", "D_", "DD", "D1A", "D2"];
-const OUT_NAMES_P: [&str; 8] = ["Q", "Q1", "Q10", "QA", "Q_", "QQ", "Q1A", "Q2"];
+const OUT_NAMES_P: [&str; 8] = ["Q", "V_out", "Q10", "IO_x_out", "Q_", "V1_out", "Q1A", "Q2"];
 const BIDIR_NAMES_P: [&str; 3] = ["IO1", "IO", "IO10"];
 const VIRT_NAMES_P: [&str; 6] = ["V", "V1", "V10", "VV", "V_", "V1A"];
 const EXOTIC: [&str; 6] = ["A-1", "~RST", "B[0]", "9", "ALU-~OE", "x.y"];
 const VARS: [&str; 8] = ["a", "b", "i", "j", "k", "m", "n", "t"];
+// legal identifiers that look like the row markers (in a row `X` `C` `Z` are markers whatever
+// variables exist; inside an expression they are ordinary names)
+const MARKER_VARS: [&str; 8] = ["a", "X", "i", "C", "k", "Z", "n", "x"];
 
 fn bits_for(n: u64) -> u32 {
     64 - n.leading_zeros()
@@ -319,6 +324,7 @@ impl<'k> Gen<'k> {
             hazard_var: None,
             hazard_done: false,
             randoms_in_stmt: 0,
+            var_pool: VARS,
             dut: None,
         }
     }
@@ -353,6 +359,9 @@ impl<'k> Gen<'k> {
         let mut sigs = vec![];
         let mut exotic_left: Vec<&str> = EXOTIC.to_vec();
         self.rng.shuffle(&mut exotic_left);
+        if self.rng.chance(1, 12) {
+            self.var_pool = MARKER_VARS;
+        }
         let prefixy = self.rng.chance(1, 4);
         let (in_names, out_names, bidir_names, virt_names) = if prefixy {
             (IN_NAMES_P, OUT_NAMES_P, BIDIR_NAMES_P, VIRT_NAMES_P)
@@ -483,6 +492,14 @@ impl<'k> Gen<'k> {
             InVal::Z
         } else if self.rng.chance(1, 2) {
             InVal::Num(0)
+        } else if self.rng.chance(1, 8) {
+            // a default that does not fit the width: it is the signal's default as it stands
+            *self.rng.pick(&[
+                InVal::Num(-1),
+                InVal::Num((1i64 << bits.min(40)) + 1),
+                InVal::Num(-(1i64 << bits.min(40))),
+                InVal::Num(255),
+            ])
         } else {
             InVal::Num(self.rng.below(1u64 << bits.min(6)) as i64)
         }
@@ -1036,7 +1053,7 @@ impl<'k> Gen<'k> {
     // statements
 
     fn fresh_var(&mut self) -> Option<String> {
-        let mut pool: Vec<&str> = VARS.to_vec();
+        let mut pool: Vec<&str> = self.var_pool.to_vec();
         self.rng.shuffle(&mut pool);
         pool.into_iter()
             .find(|n| self.lookup(n).is_none() && !self.is_output_name(n))
@@ -1056,7 +1073,7 @@ impl<'k> Gen<'k> {
                 return Some(o);
             }
         }
-        let mut pool: Vec<&str> = VARS.to_vec();
+        let mut pool: Vec<&str> = self.var_pool.to_vec();
         self.rng.shuffle(&mut pool);
         pool.into_iter()
             .find(|n| self.can_bind(n) && !self.is_output_name(n))
@@ -1176,7 +1193,7 @@ impl<'k> Gen<'k> {
                 }
                 2 => {
                     let (bound, iters) = self.gen_bound();
-                    let mut pool: Vec<&str> = VARS.to_vec();
+                    let mut pool: Vec<&str> = self.var_pool.to_vec();
                     self.rng.shuffle(&mut pool);
                     let mut var = pool[0].to_string();
                     if self.is_output_name(&var) {
@@ -1304,15 +1321,20 @@ impl<'k> Gen<'k> {
                     Expr::bin(BinOp::Add, Expr::id(&var), Expr::Num(1)),
                 ));
                 restore(self);
-                // the counter itself stays definitely assigned
-                if let Some(v) = self
-                    .scopes
-                    .last_mut()
-                    .unwrap()
-                    .iter_mut()
-                    .find(|v| v.name == var)
-                {
-                    v.definite = true;
+                // the counter itself stays definitely assigned, and so does everything the body
+                // binds directly: the loop runs at least once (m >= 1, the counter starts at 0
+                // and only the loop's own last statement changes it)
+                let direct: Vec<String> = body
+                    .iter()
+                    .filter_map(|s| match s {
+                        Stmt::Let(n, _) => Some(n.clone()),
+                        _ => None,
+                    })
+                    .collect();
+                for v in self.scopes.last_mut().unwrap().iter_mut() {
+                    if v.name == var || direct.contains(&v.name) {
+                        v.definite = true;
+                    }
                 }
                 // "for as long as c evaluates non-zero": 1, any positive, any negative value
                 let cond = match self.rng.below(5) {
